@@ -3,6 +3,7 @@ package main
 // Conservative syntactic computation of what a loop body may modify.
 
 import (
+	"fmt"
 	"go/types"
 	"strings"
 
@@ -10,11 +11,12 @@ import (
 )
 
 type modSet struct {
-	cells    map[*ssa.Alloc]bool
-	heaps    map[string]bool
-	iters    map[ssa.Value]bool
-	allHeaps bool
-	allocs   bool
+	cells     map[*ssa.Alloc]bool
+	heaps     map[string]bool
+	iters     map[ssa.Value]bool
+	allHeaps  bool
+	allScalar bool // every H_* heap, including ones not yet materialised
+	allocs    bool
 }
 
 func rootAlloc(v ssa.Value) *ssa.Alloc {
@@ -42,7 +44,7 @@ func (e *Enc) addLeafHeaps(ms *modSet, t types.Type) {
 			e.addLeafHeaps(ms, a.Elem())
 			continue
 		}
-		ms.heaps[heapName(lf.Sort)] = true
+		ms.heaps[heapNameT(lf.Sort, lf.Type)] = true
 	}
 }
 
@@ -52,10 +54,8 @@ func (e *Enc) addScalarHeaps(ms *modSet) {
 			ms.heaps[n] = true
 		}
 	}
-	// also heaps not yet materialised: mark all common ones
-	for _, n := range []string{"H_bv8", "H_bv16", "H_bv32", "H_bv64", "H_bool", "H_str", "H_loc", "H_slice", "H_ref", "H_iface", "H_func"} {
-		ms.heaps[n] = true
-	}
+	// also heaps not yet materialised
+	ms.allScalar = true
 }
 
 func (e *Enc) loopModSet(fr *Frame, li *loopInfo) *modSet {
@@ -136,7 +136,61 @@ func (e *Enc) addMapHeaps(ms *modSet, mt *types.Map) {
 	}
 }
 
+// staticTargetType types a modifies target from the callee's signature (parameters and
+// receiver), without evaluating it: x, x.f.g, *x, elems(x).
+func staticTargetType(sig *types.Signature, x SExpr) types.Type {
+	if sig == nil {
+		return nil
+	}
+	switch t := x.(type) {
+	case *SIdent:
+		if sig.Recv() != nil && (sig.Recv().Name() == t.Name || t.Name == "self") {
+			return sig.Recv().Type()
+		}
+		for i := 0; i < sig.Params().Len(); i++ {
+			if sig.Params().At(i).Name() == t.Name || fmt.Sprintf("arg%d", i) == t.Name {
+				return sig.Params().At(i).Type()
+			}
+		}
+	case *SSelector:
+		bt := staticTargetType(sig, t.X)
+		if bt == nil {
+			return nil
+		}
+		if p, ok := bt.Underlying().(*types.Pointer); ok {
+			bt = p.Elem()
+		}
+		idx, ts, ok := findField(bt, t.Sel)
+		if !ok {
+			return nil
+		}
+		st := ts[len(ts)-1].Underlying().(*types.Struct)
+		return st.Field(idx[len(idx)-1]).Type()
+	case *SUnary:
+		if t.Op == "*" {
+			if bt := staticTargetType(sig, t.X); bt != nil {
+				if p, ok := bt.Underlying().(*types.Pointer); ok {
+					return p.Elem()
+				}
+			}
+		}
+	case *SCall:
+		if id, ok := t.Fun.(*SIdent); ok && id.Name == "elems" && len(t.Args) == 1 {
+			if bt := staticTargetType(sig, t.Args[0]); bt != nil {
+				if s, ok := bt.Underlying().(*types.Slice); ok {
+					return s.Elem()
+				}
+			}
+		}
+	}
+	return nil
+}
+
 func (e *Enc) scanContract(ms *modSet, fc *FuncContract) {
+	e.scanContractSig(ms, fc, nil)
+}
+
+func (e *Enc) scanContractSig(ms *modSet, fc *FuncContract, sig *types.Signature) {
 	if fc.Pure {
 		return
 	}
@@ -173,9 +227,17 @@ func (e *Enc) scanContract(ms *modSet, fc *FuncContract) {
 					continue
 				}
 			}
-			e.addScalarHeaps(ms)
+			if tt := staticTargetType(sig, m); tt != nil {
+				e.addLeafHeaps(ms, tt)
+			} else {
+				e.addScalarHeaps(ms)
+			}
 		default:
-			e.addScalarHeaps(ms)
+			if tt := staticTargetType(sig, m); tt != nil {
+				e.addLeafHeaps(ms, tt)
+			} else {
+				e.addScalarHeaps(ms)
+			}
 		}
 	}
 }
@@ -183,7 +245,7 @@ func (e *Enc) scanContract(ms *modSet, fc *FuncContract) {
 func (e *Enc) scanCall(ms *modSet, c *ssa.CallCommon, seen map[*ssa.Function]bool) {
 	if c.IsInvoke() {
 		if fc, ok := e.P.CS.Funcs[c.Method.FullName()]; ok {
-			e.scanContract(ms, fc)
+			e.scanContractSig(ms, fc, c.Signature())
 			return
 		}
 		e.scanExtern(ms, c.Method.FullName())
@@ -226,7 +288,7 @@ func (e *Enc) scanStatic(ms *modSet, fn *ssa.Function, seen map[*ssa.Function]bo
 		return
 	}
 	if fc, ok := e.P.CS.Funcs[key]; ok && !fc.Inline {
-		e.scanContract(ms, fc)
+		e.scanContractSig(ms, fc, fn.Signature)
 		return
 	}
 	if fn.Blocks != nil && (e.inRepo(fn) || fn.Synthetic != "" || fn.Parent() != nil) {
